@@ -446,6 +446,15 @@ type DeployStart struct {
 	Seq uint64
 	Gen int64
 }
+
+// DeployedFrom records, per successful operator Deploy, the checkpoint ids of the operator checkpoints the job handed
+// to it (empty = deployed without a checkpoint). Added for C16 (splitter restored from the same job checkpoint).
+type DeployedFrom struct {
+	Seq           uint64 // position in the global observation order (comparable with Restore.Seq)
+	Gen           int64
+	Operator      string
+	CheckpointIDs []uint64
+}
 type Restore struct {
 	Seq           uint64 // position in the global observation order (comparable with Published.Seq)
 	Gen           int64
@@ -479,12 +488,13 @@ type Log struct {
 	Acks         []AckObs
 	Started      []uint64 // checkpoint ids for which StartCheckpoint reached a runner adapter (deduplicated)
 	Published    []Published
-	Deploys      []string      // "gen:opid:jobseq" per operator deploy
-	Tickers      []int64       // generation at each registration of the job's "checkpointing" ticker
-	Fires        []Fire        // timer firings seen by the reference handler
-	Faults       []Fault       // injected storage read failures, at the moment the read failed
-	DeployStarts []DeployStart // first Deploy call of every generation (the job has chosen its checkpoint by then)
-	Errors       []string      // errors/panics seen at adapter boundaries and on the job's ErrChan
+	Deploys      []string       // "gen:opid:jobseq" per operator deploy
+	Tickers      []int64        // generation at each registration of the job's "checkpointing" ticker
+	Fires        []Fire         // timer firings seen by the reference handler
+	Faults       []Fault        // injected storage read failures, at the moment the read failed
+	DeployStarts []DeployStart  // first Deploy call of every generation (the job has chosen its checkpoint by then)
+	DeployedFrom []DeployedFrom // checkpoint ids handed to each operator at Deploy
+	Errors       []string       // errors/panics seen at adapter boundaries and on the job's ErrChan
 }
 
 type logBox struct {
@@ -1465,7 +1475,7 @@ func (c *Cluster) Log() Log {
 			Invocations: append([]Invocation{}, l.Invocations...), Emissions: append([]Emission{}, l.Emissions...),
 			Assignments: append([]Assignment{}, l.Assignments...), Restores: append([]Restore{}, l.Restores...),
 			Acks: append([]AckObs{}, l.Acks...), Started: append([]uint64{}, l.Started...),
-			Published: append([]Published{}, l.Published...), Deploys: append([]string{}, l.Deploys...), Tickers: append([]int64{}, l.Tickers...), DeployStarts: append([]DeployStart{}, l.DeployStarts...), Fires: append([]Fire{}, l.Fires...), Faults: append([]Fault{}, l.Faults...), Errors: append([]string{}, l.Errors...),
+			Published: append([]Published{}, l.Published...), Deploys: append([]string{}, l.Deploys...), Tickers: append([]int64{}, l.Tickers...), DeployStarts: append([]DeployStart{}, l.DeployStarts...), DeployedFrom: append([]DeployedFrom{}, l.DeployedFrom...), Fires: append([]Fire{}, l.Fires...), Faults: append([]Fault{}, l.Faults...), Errors: append([]string{}, l.Errors...),
 		}
 	})
 	return out
@@ -1657,7 +1667,14 @@ func (a *opAdapter) Deploy(ctx context.Context, req *workerpb.DeployOperatorRequ
 				cks[i] = fmt.Sprintf("%s@%d", ck.OperatorId, ck.CheckpointId)
 			}
 			sort.Strings(cks)
-			c.log.add(func(l *Log) { l.Deploys = append(l.Deploys, fmt.Sprintf("%d:%s:%d", g, w.opID, js)) })
+			from := make([]uint64, len(req.Checkpoints))
+			for i, ck := range req.Checkpoints {
+				from[i] = ck.CheckpointId
+			}
+			c.log.add(func(l *Log) {
+				l.Deploys = append(l.Deploys, fmt.Sprintf("%d:%s:%d", g, w.opID, js))
+				l.DeployedFrom = append(l.DeployedFrom, DeployedFrom{Seq: l.Seq, Gen: g, Operator: w.opID, CheckpointIDs: from})
+			})
 		} else {
 			c.errorf("deploy of %s failed: %v", w.opID, err)
 		}
